@@ -94,6 +94,42 @@ CLAIMED = {
               "databases on equal key names through all paths over TCP, all 16 databases dumped and compared after each history (52k evaluations)."),
         note=TB + "WATCH across SELECT is C08's; blocking-pop timeouts and multi-key waits are C13's; scripts use a restricted UTF-8 vocabulary (executor/handler parity is C12's).",
         ref="DESIGN.md section 5 C18"),
+    "C08": dict(
+        text=("Proof: watch soundness for every history of any number of connections (a marking write to a watched key of the watched database between WATCH and EXEC => EXEC "
+              "replies nil and executes nothing), no false abort (an untouched watch set executes), UNWATCH/EXEC/DISCARD forget, per-connection isolation, re-WATCH keeps the first "
+              "baseline, SELECT between WATCH and EXEC is safe - Lean theorems over a model of the per-shard tracker and watch lists by induction over event lists; the premise "
+              "'every write marks' is a table theorem by decide over the (storage function, key parameter) table regenerated from engine.rs on every run (every pub fn that mutates "
+              "passes each key parameter to mark_modified; flush and the sweeper mark; no exception left), so a new write that forgets to mark breaks a proof obligation; "
+              "a TCP matrix (every mutating command x every key type x {other connection, same connection, inside EXEC, inside EVAL, sweeper expiry}) mirrors every client command into the model and compares every EXEC."),
+        note=TB + "The counter tracker is modelled with unbounded counters (usize wrap of the per-shard counter is out of reach); 'calls mark_modified' is read syntactically and validated path by path dynamically; expiry is an explicit sweeper/lazy-purge event.",
+        ref="DESIGN.md section 5 C08"),
+    "C10": dict(
+        text=("Proof: a save is a list of write calls whose concatenation is C09's snapshot; a save failing at its n-th write, for every n, every call list and every prior content, leaves the "
+              "dump name holding exactly what it held, clears the in-progress flag and lets any later save succeed; under every schedule of SAVE/BGSAVE starts, writes, failures and renames the "
+              "dump name is absent or holds the complete bytes of one finished save (exclusive variant = the tree since 8728a37; witness for the old one); per-key consistency: with value, TTL and "
+              "sorted-set members read under one lock the record written equals a state the key really had, for every interleaving of client commands with the save loop's reads (witnesses for the "
+              "two-lock and length-then-items variants); the loader is total on every byte string, consumes at most its input and (bounded variant) never allocates more than it has read plus one chunk - "
+              "19 Lean theorems; the real server is driven over TCP with hooks failing the n-th write for EVERY n of a dump, parking BGSAVE between its reads while commands run, SAVE during a parked "
+              "BGSAVE, and the real loader in-process on every prefix and on corrupted length fields with an allocation-tracking allocator."),
+        note=TB + "File-system semantics (rename atomic, a failed write leaves a prefix) are assumptions of the Sys model; power-loss durability (fsync ordering) is outside; the switches exclusive/atomic/bounded are read from rdb.rs/server.rs by the translator.",
+        ref="DESIGN.md section 5 C10"),
+    "C12": dict(
+        text=("Proof: the Lua<->RESP conversion of the prescribed variant is the standard Redis table and round-trips (all frames, all Lua values); KEYS/ARGV arrive bytewise; redis.call(cmd) = the "
+              "directly issued command in effect for ALL commands, stores and databases and in reply on the transparent fragment (partial, with decidable fragment and witness lemmas for the four conversion "
+              "rows the repo's own tests pin); an erroring call aborts the script, pcall continues, effects of completed calls persist (induction over call programs, failure atomicity from KS); a script "
+              "is one step in every schedule and its calls are contiguous; EVALSHA = EVAL, unknown hash refused; blocking/administrative names are refused inside scripts (table theorems by decide over the "
+              "block-list regenerated from lua_engine.rs/executor.rs), sandbox globals removed - 36 Lean theorems; twin servers (direct vs wrapped in 8 script wrappers on 5 databases, full dumps after "
+              "every command), call programs, return shapes, binary KEYS/ARGV, SCRIPT LOAD+EVALSHA, every refused name in call and pcall over TCP (9.9k evaluations quick, 159k thorough)."),
+        note=TB + "Executor/handler parity is measured by the twin run, not proved (executor.rs re-implements the commands; 9 parity findings recorded); nil-bulk->nil, status->string and false->:0 are pinned by the repo's own tests and stay recorded findings; no script time limit (finding, never executed here); Lua's own semantics are trusted.",
+        ref="DESIGN.md section 5 C12"),
+    "C13": dict(
+        text=("Proof: the accounting identity pushed = delivered + lost + stored (multiset) and no duplication for EVERY event history and every variant; FIFO service per key for every history; and, by "
+              "induction with an invariant over all histories satisfying a decidable predicate, conservation (nothing lost), no stranded client, registry <-> blocked, no leftover registration, nil never before "
+              "the deadline and the timeout does fire - with witness lemmas, replayed on the real server, that each excluded class broke the full statement on the old code and no longer does with the five "
+              "repairs now in the tree (switches regenerated from server.rs/blocking.rs); 25+ Lean theorems; random multi-connection histories (multi-key, multi-element, duplicate keys, pipelines, MULTI/EXEC, "
+              "timeouts, hang-ups) are executed on the real server with loop-phase control and compared with the model reply by reply, with conservation/stranded oracles judged on the server's own lists and registry dump."),
+        note=TB + "PARTIAL: still excluded and recorded as open findings - a client that disconnects while blocked, a blocking pop pipelined behind one that blocked, lists created by scripts or RENAME (no notification). Promptness is 'by the end of the loop iteration'; wall-clock timeout accuracy is tolerance-checked, not proved.",
+        ref="DESIGN.md section 5 C13"),
     "C04": dict(
         text=("Proof: the skip-list invariant (level 0 strictly sorted by (score, member), every level a sublist of the one below, key index = level 0, length) for every "
               "operation sequence and every tower height, refinement of insert/remove to the sorted-list Spec, engine-level refinement for ZADD/ZINCRBY/ZREM/ZPOP histories, "
